@@ -195,6 +195,23 @@ def run_engine(prop, tier, seed, extra_args=None):
                 for line in out.splitlines():
                     if line.startswith("VIOLATION "):
                         viol_lines.append(line)
+        elif p.returncode == 3 or p.returncode < 0:
+            # the harness process was killed by a fatal signal while executing
+            # a case: undefined behaviour reached through the safe public API
+            path = crash_replay(prop, cfg)
+            if path:
+                violations += 1
+                print("  the harness process crashed (fatal signal) while executing a generated case; "
+                      "replaying that case alone crashes again: memory-unsafe behaviour reached through the safe API")
+                line = "VIOLATION property=%s replay=%s" % (prop, path)
+                print(line)
+                viol_lines.append(line)
+                frags.append({"config": cfg, "engine": "comb", "evaluations": 0, "distinct_nontrivial": 0,
+                              "crashed": True, "rule": ""})
+            else:
+                sys.stdout.write(out)
+                print("INFRA: harness crashed (status %d) in configuration %s and the crash did not reproduce from the published case" % (p.returncode, cfg))
+                infra = True
         elif p.returncode != 0:
             sys.stdout.write(out)
             print("INFRA: harness exited with status %d in configuration %s" % (p.returncode, cfg))
@@ -218,6 +235,33 @@ def run_engine(prop, tier, seed, extra_args=None):
     return 0
 
 
+def cfg_label(cfg):
+    return {"nostd": "no_std"}.get(cfg, cfg)
+
+
+def crash_replay(prop, cfg):
+    """Turn the case published by the crash handler into a replay file and
+    confirm that replaying it alone crashes again."""
+    binpath = os.path.join(REPLAYS, "crash-%s-%s.bin" % (prop, cfg_label(cfg)))
+    if not os.path.exists(binpath):
+        return None
+    with open(binpath, "rb") as f:
+        data = f.read()
+    os.remove(binpath)
+    import hashlib
+    h = hashlib.sha1(data).hexdigest()[:16]
+    path = os.path.join(REPLAYS, "%s-%s-crash-%s.json" % (prop, cfg_label(cfg), h))
+    with open(path, "w") as f:
+        json.dump({"property": prop, "config": cfg_label(cfg), "engine": "harness", "crash": True,
+                   "bytes": data.hex()}, f, indent=1)
+        f.write("\n")
+    p = subprocess.run([binary(cfg), "replay", "--file", path, "--prop", prop], env=env(),
+                       stdout=subprocess.PIPE, stderr=subprocess.STDOUT, text=True)
+    if p.returncode == 3 or p.returncode < 0 or p.returncode == 1:
+        return path
+    return None
+
+
 def replay(prop, path):
     try:
         with open(path) as f:
@@ -235,6 +279,10 @@ def replay(prop, path):
         sys.stdout.write(log[-4000:])
         return 2
     p = subprocess.run([binary(cfg), "replay", "--file", path, "--prop", prop], env=env())
+    if p.returncode == 3 or p.returncode < 0:
+        print("the harness process crashed (fatal signal) while executing this case")
+        print("VIOLATION property=%s replay=%s" % (prop, path))
+        return 1
     return p.returncode
 
 
